@@ -52,10 +52,11 @@ VARIABLES db,       \* committed registry: [ops, shares, rcpt, last]
           pos,      \* how many events of the current block this incarnation has begun
           pend,     \* remaining primitive effects of the current event / of the block end
           prev,     \* events of the last committed block (kept only when Stale)
+          closed,   \* op grain: EndBlock was taken for the current block - its content is final, also after a crash
           nEv, nFault,
           act
-vars == <<db, tx, mem, ks, exp, blockNo, blk, pos, pend, prev, nEv, nFault, act>>
-view == <<db, tx, mem, ks, exp, blockNo, blk, pos, pend, prev, nEv, nFault>>
+vars == <<db, tx, mem, ks, exp, blockNo, blk, pos, pend, prev, closed, nEv, nFault, act>>
+view == <<db, tx, mem, ks, exp, blockNo, blk, pos, pend, prev, closed, nEv, nFault>>
 
 Track == Grain = "op" \/ Stale
 SetOf(s) == {s[k] : k \in 1..Len(s)}
@@ -239,31 +240,36 @@ Init ==
       IN /\ db = reg /\ tx = reg /\ mem = Load(reg) /\ ks = x.ks /\ exp = x
          /\ blockNo = 2 /\ blk = <<>> /\ pos = 0 /\ pend = <<>>
          /\ prev = IF Stale THEN s ELSE <<>>
+         /\ closed = FALSE
          /\ nEv = 0 /\ nFault = 0
          /\ act = [name |-> "Setup", events |-> s]
 
-Boundary == pos = 0 /\ pend = <<>> /\ blk = <<>>
+Boundary == pos = 0 /\ pend = <<>> /\ blk = <<>> /\ ~closed
 CanStart == pend = <<>> /\ blockNo - 1 <= MaxBlocks
 
 (* the next event of the block: redelivered after a crash, or a new one chosen by the environment *)
 Take(e, new) ==
+    LET m0   == M
+        effs == Eff(m0, e)
+        task == Task(m0, e)
+    IN
     /\ pos' = pos + 1
     /\ blk' = IF Track /\ new THEN Append(blk, e) ELSE blk
     /\ exp' = IF new THEN Rule(exp, e) ELSE exp
     /\ nEv' = IF new THEN nEv + 1 ELSE nEv
-    /\ UNCHANGED <<blockNo, prev, nFault>>
+    /\ UNCHANGED <<blockNo, prev, nFault, closed>>
     /\ IF Grain = "event"
-       THEN /\ Set4(FoldEffs(M, Eff(M, e))) /\ pend' = <<>>
-            /\ act' = [name |-> "Proc", e |-> e, task |-> Task(M, e), redo |-> ~new]
-       ELSE /\ pend' = Eff(M, e) /\ UNCHANGED <<db, tx, mem, ks>>
-            /\ act' = [name |-> "Proc", e |-> e, task |-> Task(M, e), redo |-> ~new, effs |-> Types(Eff(M, e))]
+       THEN /\ Set4(FoldEffs(m0, effs)) /\ pend' = <<>>
+            /\ act' = [name |-> "Proc", e |-> e, task |-> task, redo |-> ~new]
+       ELSE /\ pend' = effs /\ UNCHANGED <<db, tx, mem, ks>>
+            /\ act' = [name |-> "Proc", e |-> e, task |-> task, redo |-> ~new, effs |-> Types(effs)]
 
 Redeliver == /\ CanStart /\ pos < Len(blk) /\ Take(blk[pos + 1], FALSE)
-NewEvent  == /\ CanStart /\ pos >= Len(blk) /\ nEv < MaxEvents
+NewEvent  == /\ CanStart /\ pos >= Len(blk) /\ nEv < MaxEvents /\ ~closed
              /\ \E a \in Alphabet : LET e == Resolve(a) IN e.sn >= 0 /\ Take(e, TRUE)
 
 Advance(m) ==   \* after the commit effect
-    /\ Set4(m) /\ blockNo' = blockNo + 1 /\ pos' = 0 /\ blk' = <<>>
+    /\ Set4(m) /\ blockNo' = blockNo + 1 /\ pos' = 0 /\ blk' = <<>> /\ closed' = FALSE
     /\ prev' = IF Stale THEN blk ELSE <<>>
 
 EndBlock ==
@@ -272,14 +278,14 @@ EndBlock ==
     /\ IF Grain = "event"
        THEN /\ Advance(FoldEffs(M, EndEffs(blockNo))) /\ pend' = <<>>
             /\ act' = [name |-> "EndBlock", n |-> blockNo]
-       ELSE /\ pend' = EndEffs(blockNo) /\ UNCHANGED <<db, tx, mem, ks, blockNo, blk, pos, prev>>
+       ELSE /\ pend' = EndEffs(blockNo) /\ closed' = TRUE /\ UNCHANGED <<db, tx, mem, ks, blockNo, blk, pos, prev>>
             /\ act' = [name |-> "EndBlock", n |-> blockNo]
 
 Step ==
     /\ Grain = "op" /\ pend # <<>>
     /\ LET f == Head(pend) m == ApplyEff(M, f) IN
        /\ pend' = Tail(pend)
-       /\ IF f.t = "commit" THEN Advance(m) ELSE Set4(m) /\ UNCHANGED <<blockNo, pos, blk, prev>>
+       /\ IF f.t = "commit" THEN Advance(m) ELSE Set4(m) /\ UNCHANGED <<blockNo, pos, blk, prev, closed>>
        /\ act' = [name |-> "Step", t |-> f.t]
     /\ UNCHANGED <<exp, nEv, nFault>>
 
@@ -291,8 +297,8 @@ Die(name) ==
     /\ (name = "Fail" => pend # <<>> /\ Head(pend).t # "validate")   \* reads: see FailRead
     /\ tx' = db /\ mem' = Load(db) /\ pend' = <<>> /\ pos' = 0
     /\ IF db.last >= blockNo                      \* only with a weakened marker: the block is skipped
-       THEN blockNo' = db.last + 1 /\ blk' = <<>>
-       ELSE UNCHANGED <<blockNo, blk>>
+       THEN blockNo' = db.last + 1 /\ blk' = <<>> /\ closed' = FALSE
+       ELSE UNCHANGED <<blockNo, blk, closed>>
     /\ nFault' = nFault + 1
     /\ act' = [name |-> name, at |-> IF pend # <<>> THEN Head(pend).t ELSE "between", swallowed |-> FALSE]
     /\ UNCHANGED <<db, ks, exp, prev, nEv>>
@@ -306,13 +312,13 @@ FailRead ==
     /\ pend # <<>> /\ Head(pend).t = "validate"
     /\ pend' = <<>> /\ nFault' = nFault + 1
     /\ act' = [name |-> "Fail", at |-> "validate", swallowed |-> TRUE]
-    /\ UNCHANGED <<db, tx, mem, ks, exp, blockNo, blk, pos, prev, nEv>>
+    /\ UNCHANGED <<db, tx, mem, ks, exp, blockNo, blk, pos, prev, closed, nEv>>
 
 (* graceful restart between two blocks *)
 Reboot == /\ Boundary /\ nFault < MaxFaults
           /\ mem' = Load(db) /\ nFault' = nFault + 1
           /\ act' = [name |-> "Reboot"]
-          /\ UNCHANGED <<db, tx, ks, exp, blockNo, blk, pos, pend, prev, nEv>>
+          /\ UNCHANGED <<db, tx, ks, exp, blockNo, blk, pos, pend, prev, closed, nEv>>
 
 (* the last committed block is delivered again *)
 StaleBlock ==
@@ -323,7 +329,7 @@ StaleBlock ==
             /\ act' = [name |-> "StaleBlock", n |-> blockNo - 1, events |-> prev, accepted |-> TRUE]
        ELSE /\ UNCHANGED <<db, tx, mem, ks>>
             /\ act' = [name |-> "StaleBlock", n |-> blockNo - 1, events |-> prev, accepted |-> FALSE]
-    /\ UNCHANGED <<exp, blockNo, blk, pos, pend, prev, nEv>>
+    /\ UNCHANGED <<exp, blockNo, blk, pos, pend, prev, closed, nEv>>
 
 Next == Redeliver \/ NewEvent \/ EndBlock \/ Step \/ Crash \/ Fail \/ FailRead \/ Reboot \/ StaleBlock
 Spec == Init /\ [][Next]_vars
